@@ -77,11 +77,23 @@ pub struct Failure {
     pub observed: String,
 }
 
+/// A KNOWN literal deviation of the unchanged tree from the text of a property, detected on purpose by a
+/// finding probe.  It is reported (`RT-FINDING ...`) and never changes the verdict or the exit code.
+#[derive(Clone, Debug)]
+pub struct Finding {
+    /// stable name of the finding (one report line per distinct key)
+    pub key: String,
+    /// one line
+    pub detail: String,
+}
+
 /// Why a scenario stopped early.
 #[derive(Clone, Debug)]
 pub enum Stop {
     /// the property does not hold on this input
     Fail(Failure),
+    /// a known finding was observed (not a failure)
+    Finding(Finding),
     /// a precondition that is NOT the subject of the property could not be established
     /// (e.g. honest key generation failed while testing cheater detection): no verdict
     Skip(String),
@@ -94,6 +106,14 @@ pub fn fail<T>(check: &str, expected: impl Into<String>, observed: impl Into<Str
         check: check.to_string(),
         expected: expected.into(),
         observed: observed.into(),
+    }))
+}
+
+pub fn finding<T>(key: &str, detail: impl Into<String>) -> Result<T, Stop> {
+    let detail: String = detail.into();
+    Err(Stop::Finding(Finding {
+        key: key.to_string(),
+        detail: detail.replace(['\n', '\r'], " "),
     }))
 }
 
@@ -702,6 +722,12 @@ pub fn setup_session<C: Suite>(rng: &mut TestRng, p: &Params) -> Result<(Keys<C>
     let signers = signer_ids::<C>(&keys, p);
     let sess = run_session::<C>(rng, &keys.key_packages, &signers, &p.message, false)?;
     Ok((keys, signers, sess))
+}
+
+/// Equality of two values through their ENCODINGS.  The harness uses it (instead of the library's `PartialEq`) where it decides
+/// whether a generated variant differs from the original: a defect in a type's `PartialEq` must not make the harness skip the case.
+pub fn same_encoding<E>(a: Result<Vec<u8>, E>, b: Result<Vec<u8>, E>) -> bool {
+    matches!((a, b), (Ok(x), Ok(y)) if x == y)
 }
 
 pub fn culprits_hex<C: Suite>(e: &FErr<C>) -> Vec<String> {
